@@ -1268,6 +1268,7 @@ vnacal_t *vnacal_load(const char *pathname,
     yaml_parser_t parser;
     yaml_node_t *root;
     bool delete_document = false;
+    bool delete_parser = false;
     char line_buf[81];
 
     /*
@@ -1348,7 +1349,13 @@ vnacal_t *vnacal_load(const char *pathname,
 		vcp->vc_filename, vls.vls_major_version, vls.vls_minor_version);
 	goto error;
     }
-    yaml_parser_initialize(&parser);
+    if (!yaml_parser_initialize(&parser)) {
+	errno = ENOMEM;
+	_vnacal_error(vcp, VNAERR_SYSTEM,
+		"yaml_parser_initialize: %s", strerror(errno));
+	goto error;
+    }
+    delete_parser = true;
     yaml_parser_set_input_file(&parser, fp);
     if (!yaml_parser_load(&parser, &vls.vls_document)) {
 	_vnacal_error(vcp, VNAERR_SYNTAX, "%s (line %ld) error: %s",
@@ -1357,6 +1364,8 @@ vnacal_t *vnacal_load(const char *pathname,
 	goto error;
     }
     delete_document = true;
+    yaml_parser_delete(&parser);
+    delete_parser = false;
     (void)fclose(fp);
     fp = NULL;
     if ((root = yaml_document_get_root_node(&vls.vls_document)) == NULL) {
@@ -1373,6 +1382,9 @@ vnacal_t *vnacal_load(const char *pathname,
 error:
     if (delete_document) {
 	yaml_document_delete(&vls.vls_document);
+    }
+    if (delete_parser) {
+	yaml_parser_delete(&parser);
     }
     if (fp != NULL) {
 	(void)fclose(fp);
